@@ -23,8 +23,8 @@ def suites(tier):
     cfg = dict(fish=1, nmax=3 if q else 4)
     jobs.append(dict(id="quote:withshell-fish", func="zzH_C12_quote", cfg=cfg, cfgs={"env:SHELL": "/bin/sh", "withshell": "/opt/fish -c"}))
     s1 = dict(UTIL, name="util", jobs=jobs)
-    jobs2 = [dict(id="esq", func="zzH_C12_esq", cfg=dict(nmax=4 if q else 6)),
+    jobs2 = [dict(id="esq", func="zzH_C12_esq", cfg=dict(nmax=4 if q else 8)),
              dict(id="expand", func="zzH_C12_expand", cfg=dict(nmax=2 if q else 3), cfgs={"env:SHELL": "/bin/sh"})]
     for shell, ws in (("/bin/sh", ""), ("/usr/bin/fish", ""), ("/bin/sh", "/opt/fish -c")):
-        jobs2.append(dict(id="tmux:%s:%s" % (shell, ws or "-"), func="zzH_C12_tmux", cfg=dict(nmax=3 if q else 5), cfgs={"env:SHELL": shell, "withshell": ws}))
+        jobs2.append(dict(id="tmux:%s:%s" % (shell, ws or "-"), func="zzH_C12_tmux", cfg=dict(nmax=3 if q else 6), cfgs={"env:SHELL": shell, "withshell": ws}))
     return [s1, src_suite("src", jobs2)]
